@@ -35,13 +35,14 @@ THEOREMS = [
     # so far, widths = class sizes, cost = product of the factors); the returned state is a width-feasible plan; flag => the reported overhead IS the minimum
     "CKT.C08Wire.child_generic", "CKT.C08Wire.child_app", "CKT.C08Wire.child_gcut", "CKT.C08Wire.child_left", "CKT.C08Wire.child_right",
     "CKT.C08Wire.child_both", "CKT.C08Wire.child_linkW", "CKT.C08Wire.desc_linkW", "CKT.C08Wire.goal_feasibleW",
-    "CKT.C08Wire.optimize_result_is_planW", "CKT.C08Wire.optimize_is_minimumW"] + ["CKT.C08." + t for t in [
+    "CKT.C08Wire.optimize_result_is_planW", "CKT.C08Wire.optimize_is_minimumW", "CKT.C08Wire.optimize_is_minimum_gate_lo"] + ["CKT.C08." + t for t in [
     "desc_cost", "insertKey_sorted", "put1_spec", "put_spec", "lb_of_head", "lb_of_empty", "updMin_fields", "updUb_fields",
     "good_flag_of_popped", "loop_good", "pass_good", "flag_sound", "actCost_ge_one", "child_cost", "cut_mono", "firstMin_spec",
     "passes_inv", "startSearch_good", "optimize_flag_sound",
     # second sentence of C08 (Props/C08Full): an unrestricted search always reports the minimum; flagged runs agree for every random stream
     "phi_insertKey", "phi_put", "children_wt", "expand_good", "loop_complete", "pass_complete", "cut_ranked", "passes_complete",
     "optimize_complete", "pass_ub", "passes_origin", "optimize_origin", "optimize_seed_independent", "unrestricted_seed_independent"]]
+LEVEL_TEXT = ("flag soundness and completeness proved for the executable model of the search for every input, limit and random stream; against the specification (a plan chooses apply / gate cut / left, right or both-wires cut per gate; subcircuits = classes of wires joined by the gates that are not gate-cut; overhead = product of the cut factors) the model is proved to report, when the flag is set, an overhead that is attained by a width-feasible plan and that no width-feasible plan undercuts (Props/C08Link, C08Conv, C08Wire, C08Prune, C08ConvW: optimize_is_minimumW), under the hypotheses that the greedy pass found an incumbent (always when gate cuts are permitted) whose cost is below 2^4096; model tied to the code by exact comparison with the seeded random stream replayed and by the brute force over all 5^g plans")
 RULE = ("as C07, with emphasis on search limits: gamma limits below, at and above the optimum, backjump limits 0..100 and none, several seeds "
         "per circuit; fixed families: greedy warm start with wire cuts vs cheaper gate-cut optimum, several quantum registers; thorough: every circuit on 3 qubits with up to 3 cx gates x width 1..2 x every permitted-cut combination against the "
         "brute force over all 5^g plans; two full subcircuits with a pair across them hit by several gates (both-wires cut optimal); ten-qubit gate-cut-only "
